@@ -20,7 +20,7 @@ from ..kapi import get_alg, mv, coeffs, mv_eq_claims, eq_claims, kmap, twice_on_
 PROP = 'C06'
 LEVEL = 'translation_validation'
 ENGINES = ['A']
-FUNCTIONS = ['codegen_sw', 'codegen_proj', 'codegen_normsq', 'Polynomial/RationalPolynomial arithmetic (at generation time)',
+FUNCTIONS = ['codegen_sw', 'codegen_proj', 'codegen_normsq', 'MultiVector.__rshift__/__rrshift__/__matmul__/__rmatmul__ (number, list, tuple, callable operands)', 'Polynomial/RationalPolynomial arithmetic (at generation time)',
              'do_codegen (canonical re-sorting, getattr by blade name)', 'lambdify + sympy cse', 'KingdonPrinter', 'tosympy',
              'generated sw_/proj_/normsq_ functions']
 ASSUMPTIONS = ['coefficients are reals; patterns/configurations enumerated, values symbolic']
@@ -102,6 +102,12 @@ def cases(tier, seed):
     for i in range(100 if tier == 'quick' else 1000):
         cfg, dd = pat.random_cfg(rng, d=rng.choice((1, 2, 2, 3, 3, 4)))
         add(cfg, pat.random_pattern(rng, dd, max_len=4 if dd >= 3 else 4), pat.random_pattern(rng, dd, max_len=4))
+    # operands that are not multivectors on the LEFT of >> and @ (reflected dunders): plain number, list, tuple, callable
+    for cfg in (dict(p=2), dict(p=1, q=1), dict(p=2, r=1), dict(p=3)):
+        dd = sum(cfg.values())
+        for _ in range(6 if tier == 'quick' else 40):
+            out.append(dict(kind='reflected', cfg=cfg, ka=list(pat.random_pattern(rng, dd, max_len=3, allow_empty=False)),
+                            kb=list(pat.random_pattern(rng, dd, max_len=3, allow_empty=False))))
     # option slices
     for opt in (dict(cse=False), dict(symbolcls='sympy'), dict(wrapper='identity')):
         for base in (dict(p=2), dict(p=1, q=1), dict(p=2, r=1)):
@@ -112,7 +118,50 @@ def cases(tier, seed):
     return out
 
 
+def _reflected(desc, V):
+    from kingdon.multivector import MultiVector
+    alg = get_alg(desc['cfg'])
+    a = mv(alg, V, 'a', desc['ka'])
+    b = mv(alg, V, 'b', desc['kb'])
+    s = V.var('s')
+    S = MultiVector.fromkeysvalues(alg, (0,), [s])
+    claims = []
+    claims += mv_eq_claims('s>>b', s >> b, coeffs(S * b * ~S))
+    claims += mv_eq_claims('s@b', s @ b, coeffs((S | b) * ~b))
+    claims += mv_eq_claims('b>>s', b >> s, coeffs(b * S * ~b))
+    claims += mv_eq_claims('b@s', b @ s, coeffs((b | S) * ~S))
+    want_sw, want_pr = coeffs(a * b * ~a), coeffs((a | b) * ~b)
+    for label, left in (('list', [a, S]), ('tuple', (a, S))):
+        r = left >> b
+        if type(r) is not type(left) or len(r) != 2:
+            claims.append(Fail(f'{label}>>b', f'{label} >> b returned {type(r).__name__}'))
+        else:
+            claims += mv_eq_claims(f'{label}>>b[0]', r[0], want_sw)
+            claims += mv_eq_claims(f'{label}>>b[1]', r[1], coeffs(S * b * ~S))
+        r = left @ b
+        if type(r) is not type(left) or len(r) != 2:
+            claims.append(Fail(f'{label}@b', f'{label} @ b returned {type(r).__name__}'))
+        else:
+            claims += mv_eq_claims(f'{label}@b[0]', r[0], want_pr)
+            claims += mv_eq_claims(f'{label}@b[1]', r[1], coeffs((S | b) * ~b))
+        r = a >> [b, S] if label == 'list' else a >> (b, S)
+        claims += mv_eq_claims(f'a>>{label}[0]', r[0], want_sw)
+        claims += mv_eq_claims(f'a>>{label}[1]', r[1], coeffs(a * S * ~a))
+        r = a @ [b, S] if label == 'list' else a @ (b, S)
+        claims += mv_eq_claims(f'a@{label}[0]', r[0], want_pr)
+        claims += mv_eq_claims(f'a@{label}[1]', r[1], coeffs((a | S) * ~S))
+    f = lambda: a
+    claims += mv_eq_claims('callable>>b', f >> b, want_sw)
+    claims += mv_eq_claims('callable@b', f @ b, want_pr)
+    g = lambda: b
+    claims += mv_eq_claims('a>>callable', a >> g, want_sw)
+    claims += mv_eq_claims('a@callable', a @ g, want_pr)
+    return claims
+
+
 def run_case(desc, V):
+    if desc['kind'] == 'reflected':
+        return _reflected(desc, V)
     return twice_on_wrapper(desc['cfg'], lambda alg: _body(desc, V, alg))
 
 
